@@ -1,12 +1,28 @@
 ----------------------------- MODULE ConformAll ----------------------------
 (* dispatch from event kind to its conformance operator *)
-EXTENDS Conform
+EXTENDS ConformMisc
 
 EventTags(ev) ==
   IF Has(ev, "harness_error") THEN <<"harness-error">>
-  ELSE CASE ev.e = "decode"         -> VDecode(ev)
+  ELSE CASE ev.e = "decode"         -> IF Has(ev, "fault") THEN VFault(ev) ELSE VDecode(ev)
          [] ev.e = "decode_avps"    -> VDecodeAvps(ev)
          [] ev.e = "decode_payload" -> VDecodePayload(ev)
          [] ev.e = "decode_seq"     -> VDecodeSeq(ev)
+         [] ev.e = "decode_opts"    -> VDecodeOpts(ev)
+         [] ev.e = "decode_suffix"  -> VDecodeSuffix(ev)
+         [] ev.e = "avps_concat"    -> VAvpsConcat(ev)
+         [] ev.e = "encode"         -> VEncode(ev)
+         [] ev.e = "encode_seq"     -> VEncodeSeq(ev)
+         [] ev.e = "roundtrip"      -> VRoundtrip(ev)
+         [] ev.e = "chain"          -> VChain(ev)
+         [] ev.e = "hide"           -> VHide(ev)
+         [] ev.e = "reveal"         -> VReveal(ev)
+         [] ev.e = "hide_reveal"    -> VHideReveal(ev)
+         [] ev.e = "enum_map"       -> VEnumMap(ev)
+         [] ev.e = "enum_names"     -> VEnumNames(ev)
+         [] ev.e = "bitmask"        -> VBitmask(ev)
+         [] ev.e = "render"         -> VRender(ev)
+         [] ev.e = "cursor"         -> VCursor(ev)
+         [] ev.e = "vecwriter"      -> VVecWriter(ev)
          [] OTHER -> <<"unknown-event">>
 =============================================================================
